@@ -9,6 +9,8 @@ import r_lock
 import r_forms
 import project
 import r_depend
+import r_contra
+import r_pair
 import witness
 
 
@@ -211,7 +213,74 @@ def c08(facts, tier):
     return rep
 
 
+def c12(facts, tier):
+    rep = Report("C12", tier, facts,
+                 "R-GUARDDEP on every float->integer narrowing cast of ckks_encoder.rs that is selected by a magnitude "
+                 "tier guard (the cast value may depend only on inputs the guard depends on); R-CONTRA(wrap): no "
+                 "wrapping arithmetic on an unbounded signed/floating input feeds a modular reduction; R-GUARD "
+                 "(pre-return): every public encode entry point refuses, on every path, through a branch computed "
+                 "from the scale and from the value(s) against the modulus size.",
+                 "rounding, the double-precision error of the embedding transform, FFT correctness, the slot order.")
+    files = {"src/ckks_encoder.rs"}
+    n = r_contra.run_guarddep(facts, rep, files)
+    rep.floor("R-GUARDDEP", "tier-guarded float->int casts", n, 8)
+    n = r_contra.run_wrap(facts, rep, files if tier == "quick" else None)
+    rep.floor("R-CONTRA(wrap)", "reduction call sites inspected", n, 8)
+    eng = r_guard.GuardEngine(facts, track_scalars=True)
+    rows = []
+    for p in sorted(facts.methods_of("ckks_encoder::CKKSEncoder", pub_only=True)):
+        it = facts.items[p]
+        if not it["name"].startswith("encode"):
+            continue
+        names = [pp["pat"]["name"] for pp in it["params"] if pp["pat"].get("k") == "PBind"]
+        if "scale" in names:
+            rows.append((p, "mag_bound", ("scale",), "oversized scales are refused"))
+            rows.append((p, "positive", ("scale",), "non-positive scales are refused"))
+        for v in ("values", "value"):
+            if v in names:
+                rows.append((p, "mag_bound", (v,), "inputs whose scaled magnitude does not fit the modulus are refused"))
+    rep.rule("R-GUARD(encode)", "no normally-returning path of an encode entry point lacks a refusing branch computed "
+             "from the operand and total_coeff_modulus_bit_count")
+    r_guard.check_return_facts(facts, rep, eng, rows, "R-GUARD(encode)")
+    rep.floor("R-GUARD(encode)", "encode refusal rows", len(rows), 25)
+    return rep
+
+
+def c11(facts, tier):
+    rep = Report("C11", tier, facts,
+                 "R-PAIR(batch): BatchEncoder.encode scatters and decode gathers through the same index-map field with "
+                 "the loop variable as index, the tail is zero-filled through the same map, encode ends with the "
+                 "inverse and decode starts with the forward non-lazy negacyclic transform of plain_ntt_tables, "
+                 "coefficient encoding reduces modulo t; R-CONTRA(index) on the Galois permutation and the encoder: "
+                 "every index guarded by a comparison with the operand's length is implied in-bounds by it.",
+                 "that batching is a ring isomorphism, the slot order, that the automorphism acts as the documented "
+                 "rotation (value-level facts about roots of unity and the index map's contents).")
+    r_pair.run_c11(facts, rep)
+    files = None if tier == "thorough" else {"src/util/galois.rs", "src/batch_encoder.rs", "src/util/ntt.rs"}
+    n = r_contra.run_index(facts, rep, files)
+    rep.floor("R-CONTRA(index)", "length-guarded index uses", n, 1)
+    return rep
+
+
+def c04(facts, tier):
+    rep = Report("C04", tier, facts,
+                 "R-PAIR(galois): symbolic buffer contents through apply_galois_inplace's order-sensitive block (key-"
+                 "switch target = G(c1), poly(0) = G(c0), poly(1) = 0 on both representation arms); rotate_internal "
+                 "applies the element whose key it tested and re-applies NAF components to the same ciphertext/keys; "
+                 "conjugation uses step 0; R-CONTRA(index) on GaloisTool::apply.",
+                 "that X -> X^g permutes slots as documented, generator/NAF arithmetic, key-switch noise, plaintext "
+                 "preservation under the new key.")
+    r_pair.run_c04(facts, rep)
+    files = None if tier == "thorough" else {"src/util/galois.rs", "src/evaluator.rs", "src/key.rs"}
+    n = r_contra.run_index(facts, rep, files)
+    rep.floor("R-CONTRA(index)", "length-guarded index uses", n, 1)
+    return rep
+
+
 CHECKS = {
+    "C04": c04,
+    "C11": c11,
+    "C12": c12,
     "C08": c08,
     "C03": c03,
     "C17": c17,
